@@ -1313,9 +1313,6 @@ Proof.
   apply fold_poke_hrel. apply hrel_refl.
 Qed.
 
-Lemma call_h_res : forall w q, r_calls (snd (call_h w q)) = r_calls (snd (call_h w q)).
-Proof. reflexivity. Qed.
-
 (* projections of the preserved views *)
 Lemma kv_proj : forall s s', kv s' = kv s ->
   k_state (k s') = k_state (k s) /\ k_cmd (k s') = k_cmd (k s) /\ k_var (k s') = k_var (k s) /\
